@@ -156,12 +156,51 @@ func (e *Engine) shape(t types.Type) VK {
 func (r *FnRun) tn(t types.Type) string { return r.eng.tnFor(t, r.fn.Pkg.Pkg) }
 
 func (e *Engine) tnFor(t types.Type, cur *types.Package) string {
-	return types.TypeString(t, func(p *types.Package) string {
+	s := types.TypeString(t, func(p *types.Package) string {
 		if p == cur {
 			return ""
 		}
 		return p.Name()
 	})
+	return strings.ReplaceAll(s, "interface{}", "any")
+}
+
+// nameV gives long scalar terms of a value a short name (keeps queries small).
+func (s *State) nameV(prefix string, v *V) *V {
+	nm := func(t, sort string) string {
+		if len(t) < 60 {
+			return t
+		}
+		n := s.run.fresh(prefix, sort)
+		s.assume(sEq(n, t))
+		return n
+	}
+	switch v.K {
+	case KInt:
+		c := *v
+		c.S = nm(v.S, "Int")
+		return &c
+	case KBool:
+		c := *v
+		c.S = nm(v.S, "Bool")
+		return &c
+	case KIface:
+		c := *v
+		c.Tag, c.Val = nm(v.Tag, "Int"), nm(v.Val, "Int")
+		return &c
+	case KSlice:
+		c := *v
+		c.Arr, c.Off, c.Len, c.Cap = nm(v.Arr, "Int"), nm(v.Off, "Int"), nm(v.Len, "Int"), nm(v.Cap, "Int")
+		return &c
+	case KStruct, KTuple:
+		c := *v
+		c.F = nil
+		for _, f := range v.F {
+			c.F = append(c.F, s.nameV(prefix, f))
+		}
+		return &c
+	}
+	return v
 }
 
 // ---- per function run ----
@@ -214,6 +253,7 @@ type FnRun struct {
 	blockingNoDone []string
 	rootOf map[string]string
 	lockCands []string
+	closedWorld map[string]bool
 }
 
 func (r *FnRun) fresh(prefix, sort string) string {
